@@ -154,4 +154,23 @@ def _run(ctx, chk, prog, tag):
            "controls/ctl_state.c")
     chk.ob("C17.control", "file-scope counter (verif_ctl_counter)", "verif_ctl_counter" in ctl_hits, "controls/ctl_state.c")
     chk.count("units", len(prog.facts["units"]))
+    chk.rule("C17.count-width", "the reference count is stepped at the full width of size_t: it cannot wrap to zero while references are held and hand a "
+             "live block back to the shared allocator (shared with C13.count-width)")
+    import ownership as _O17c
+    import rules as _r17c
+    _r17c.check_refcount_width(chk, "C17.count-width", prog, _O17c.PathCache(prog, eff))
+    chk.rule("C17.debug-writes", "also in the debug configuration (assertions compiled in) no library function writes an object with static storage "
+             "other than the allocator hooks in cbor_set_allocs - the switch that lets the test suite silence assertions is for test code, "
+             "never flipped by the library itself (one thread's failing load would disarm every other thread's assertions, and race on the flag)")
+    dprog = ctx.prog("debug", with_controls=False)
+    deff = ctx.effects(dprog)
+    nd = 0
+    for f_ in dprog.lib_funcs():
+        nd += 1
+        # (objects the library itself defines - a diagnostic stream of the C library handed to fprintf is not the library's state)
+        gw_ = sorted(r_[1] for r_ in deff.summ[f_.name]["writes"] if r_[0] == "global" and r_[1] not in ALLOC_GLOBALS and r_[1] in dprog.globals)
+        okd = not gw_
+        chk.ob("C17.debug-writes", f_.name, okd, "%s:%d" % (f_.file, f_.line), fn=f_.name, key="dbgw:" + f_.name,
+               nontrivial=bool(deff.summ[f_.name]["callees"]) or not okd, detail="" if okd else "writes %s in the debug configuration" % gw_)
+    chk.floor("C17.debug-writes", "functions of the debug configuration", nd, 100)
     chk.exhaustive = True
